@@ -60,6 +60,7 @@ func wellFormed(bc *ugo.Bytecode) []string {
 		return []string{"nil bytecode or main"}
 	}
 	checkFn := func(name string, cf *ugo.CompiledFunction) {
+		isMain := cf == bc.Main
 		if cf.NumParams > cf.NumLocals {
 			add("%s: NumParams %d > NumLocals %d", name, cf.NumParams, cf.NumLocals)
 		}
@@ -103,8 +104,14 @@ func wellFormed(bc *ugo.Bytecode) []string {
 			case ugo.OpClosure:
 				if operands[0] >= len(bc.Constants) {
 					add("%s: CLOSURE index %d >= %d", name, operands[0], len(bc.Constants))
-				} else if _, ok := bc.Constants[operands[0]].(*ugo.CompiledFunction); !ok {
+				} else if fn, ok := bc.Constants[operands[0]].(*ugo.CompiledFunction); !ok {
 					add("%s: CLOSURE constant %d is not a function", name, operands[0])
+				} else if need := maxFreeIndex(fn) + 1; operands[1] < need {
+					add("%s: CLOSURE at %d passes %d free variables but the function uses free index %d", name, i, operands[1], need-1)
+				}
+			case ugo.OpGetFree, ugo.OpSetFree, ugo.OpGetFreePtr:
+				if isMain {
+					add("%s: %s in the main function", name, ugo.OpcodeNames[op])
 				}
 			case ugo.OpGetGlobal, ugo.OpSetGlobal:
 				if operands[0] >= len(bc.Constants) {
@@ -170,6 +177,33 @@ func wellFormed(bc *ugo.Bytecode) []string {
 		}
 	}
 	return probs
+}
+
+// maxFreeIndex is the largest free-variable index a function's instructions use (-1 if none).
+func maxFreeIndex(cf *ugo.CompiledFunction) int {
+	max := -1
+	ins := cf.Instructions
+	for i := 0; i < len(ins); {
+		op := ins[i]
+		if int(op) >= len(ugo.OpcodeOperands) {
+			return max
+		}
+		w := 0
+		for _, x := range ugo.OpcodeOperands[op] {
+			w += x
+		}
+		if i+1+w > len(ins) {
+			return max
+		}
+		switch op {
+		case ugo.OpGetFree, ugo.OpSetFree, ugo.OpGetFreePtr:
+			if int(ins[i+1]) > max {
+				max = int(ins[i+1])
+			}
+		}
+		i += 1 + w
+	}
+	return max
 }
 
 type c05opt struct {
@@ -376,6 +410,11 @@ func c05boundary() []c05case {
 		add(fmt.Sprintf("index-chain-%d", n), "m := {}\nreturn m"+c05repeat(n, func(i int) string { return "[0]" }, ""))
 		add(fmt.Sprintf("selector-assign-%d", n), "m := {}\nm"+c05repeat(n, func(i int) string { return ".a" }, "")+" = 1")
 		add(fmt.Sprintf("free-vars-%d", n), "f := func() {\n"+c05repeat(n/2, func(i int) string { return fmt.Sprintf("v%d := %d", i, i) }, "\n")+"\nreturn func() { return "+c05repeat(n/2, func(i int) string { return fmt.Sprintf("v%d", i) }, " + ")+" }\n}\nreturn f()()")
+		if n <= 256 {
+			// exactly n captured variables in one closure (n top-level locals are all captured)
+			add(fmt.Sprintf("free-vars-exact-%d", n), c05repeat(n, func(i int) string { return fmt.Sprintf("v%d := %d", i, i) }, "\n")+"\nreturn func() { return "+c05repeat(n, func(i int) string { return fmt.Sprintf("v%d", i) }, " + ")+" }()")
+			add(fmt.Sprintf("free-vars-nested-%d", n), "f := func() {\n"+c05repeat(n-1, func(i int) string { return fmt.Sprintf("v%d := %d", i, i) }, "\n")+"\nreturn func() { return func() { return "+c05repeat(n-1, func(i int) string { return fmt.Sprintf("v%d", i) }, " + ")+" } }\n}\nreturn f()()()")
+		}
 		add(fmt.Sprintf("destructuring-%d", n), c05repeat(n, func(i int) string { return fmt.Sprintf("d%d", i) }, ", ")+" := [1, 2]\nreturn d0")
 		add(fmt.Sprintf("try-nesting-%d", n), strings.Repeat("try {\n", n%60+1)+"x := 1\n"+strings.Repeat("} finally {\n}\n", n%60+1))
 	}
